@@ -19,9 +19,9 @@ func GenHistory(t *rapid.T, maxOps int, bias17 bool) (Config, []Op) {
 	opGen := rapid.Custom(func(t *rapid.T) Op {
 		var k int
 		if bias17 {
-			k = rapid.SampledFrom([]int{0, 0, 0, 0, 0, 0, 1, 2, 2, 2, 2, 3, 4, 5, 6, 0, 0, 2, 7, 8, 9, 11, 11, 12, 13, 14}).Draw(t, "k")
+			k = rapid.SampledFrom([]int{0, 0, 0, 0, 0, 0, 1, 2, 2, 2, 2, 3, 4, 5, 6, 0, 0, 2, 7, 8, 9, 11, 11, 12, 13, 14, 15, 15}).Draw(t, "k")
 		} else {
-			k = rapid.SampledFrom([]int{0, 0, 0, 0, 0, 0, 0, 0, 1, 2, 2, 2, 3, 4, 5, 6, 7, 8, 9, 10, 11, 12, 13, 14}).Draw(t, "k")
+			k = rapid.SampledFrom([]int{0, 0, 0, 0, 0, 0, 0, 0, 1, 2, 2, 2, 3, 4, 5, 6, 7, 8, 9, 10, 11, 12, 13, 14, 15}).Draw(t, "k")
 		}
 		switch k {
 		case 0:
@@ -54,6 +54,8 @@ func GenHistory(t *rapid.T, maxOps int, bias17 bool) (Config, []Op) {
 			return Op{K: OpArmGateableNoID}
 		case 14:
 			return Op{K: OpArmSendWarn}
+		case 15:
+			return Op{K: OpArmSendSecond}
 		case 11:
 			return Op{K: OpSetExp, Tick: rapid.IntRange(0, 3).Draw(t, "newExp")}
 		default:
